@@ -12,7 +12,11 @@ import (
 var (
 	base  int64
 	ticks atomic.Int64
+	total atomic.Int64 // readings over all runs of the process (1 ms of simulated time each)
 )
+
+// TotalSeconds is the simulated time covered by all runs of this process so far.
+func TotalSeconds() float64 { return float64(total.Load()+ticks.Load()) / 1000 }
 
 func now() (int64, int64) {
 	n := ticks.Add(1)
@@ -22,7 +26,7 @@ func now() (int64, int64) {
 // Install starts simulated time for one run.
 func Install(seed uint64) {
 	base = 1767225600 + int64(seed%(365*86400)) // some second of 2026
-	ticks.Store(0)
+	total.Add(ticks.Swap(0))
 	time.VerifNow = now
 }
 
